@@ -27,6 +27,7 @@ RULE += (" Also: exits raising standard types (StopAsyncIteration, RuntimeError,
 RULE += (' Also: exits answering an exception with an object whose truth value cannot be taken.')
 RULE += (' Also: what __(a)enter__ gives is falsy and awaitable (handed on untouched).')
 RULE += (" Also: histories with raising exits (an unwind ending in an exit's failure, then the same stack used again).")
+RULE += (' Also: exits failing with a falsy exception instance.')
 ASSUMPTIONS = ["nested async with/with statements of the running interpreter are the reference for routing",
                "__context__ chains are not compared"]
 EXHAUSTIVE_SUBSPACES = 'all 16842 stacks of <= 3 entries x block outcome; all histories of length <= 4 (thorough: 5) over 8 operations'
@@ -45,7 +46,10 @@ BEHS_EXTRA = BEHS + ["raise_base", "raise_base_if_exc", "reraise_same", "reraise
                      # the exit answers an exception with an object whose truth value cannot be taken ("ambiguous",
                      # as for an array): the with statement's own truth test fails, which is one more exception
                      # raised while leaving that block - the enclosing exits still run and may handle it
-                     "ambiguous_if_exc", "ambiguous_if_exc"]
+                     "ambiguous_if_exc", "ambiguous_if_exc",
+                     # the exit fails with an exception INSTANCE that tests false (a collection-style "Problems" error
+                     # that is currently empty): an exception like any other
+                     "raise_falsy", "raise_falsy", "raise_falsy_if_exc"]
 STD = {"StopAsyncIteration": StopAsyncIteration, "RuntimeError": RuntimeError, "KeyError": KeyError,
        "AttributeError": AttributeError, "TypeError": TypeError, "GeneratorExit": GeneratorExit,
        "Exception": Exception, "BaseException": BaseException}
@@ -59,6 +63,13 @@ class E(Exception):
     def __init__(self, n):
         self.n = n
         super().__init__(n)
+
+
+class EFalsy(E):
+    """An exception whose instances are falsy (``__len__`` of a collection-style error is 0)."""
+
+    def __len__(self):
+        return 0
 
 
 class EB(BaseException):
@@ -157,6 +168,12 @@ def mk_entry(kind, beh, i, log, susp, choice, shared=None):
         if beh == "raise_if_exc":
             if ev is not None:
                 raise E(f"h{i}")
+            return None
+        if beh == "raise_falsy":
+            raise EFalsy(f"f{i}")
+        if beh == "raise_falsy_if_exc":
+            if ev is not None:
+                raise EFalsy(f"fh{i}")
             return None
         if beh == "ambiguous_if_exc":
             if ev is not None:
